@@ -181,3 +181,12 @@ func ErrInvalidPath(msg string, args ...interface{}) *PathError {
 func ErrEmptyPath() *PathError {
 	return &PathError{msg: "path is empty"}
 }
+
+// ErrControlCharInString: RFC 8259 does not allow control characters (U+0000..U+001F) to appear
+// unescaped inside a string.
+func ErrControlCharInString(c byte, cursor int64) *SyntaxError {
+	return &SyntaxError{
+		msg:    fmt.Sprintf("json: invalid character %q in string literal", c),
+		Offset: cursor,
+	}
+}
